@@ -120,9 +120,19 @@ def _strategy(draw):
             # differs from -box: the structure's box wins
             cbox = [round(edge + 1.0, 2), round(edge + 1.0, 2), round(edge + 2.0, 2)]
         spec["coords"] = draw(supplied_coords(spec, cbox, skip=opts.get("build_res", ())))
+        crd = spec["coords"]
+        if crd and crd["nres"] == crd["total_res"] and crd["mode"] == "c" and not opts.get("build_res") \
+                and len(crd["atoms"]) <= 1000 and draw(st.integers(0, 2)) == 0:
+            # a complete structure that carries a small cell (e.g. a single molecule dumped from a crystal, not
+            # wrapped): nothing is built, the structure and its box are handed on as they are
+            crd["box"] = draw(st.sampled_from([[0.95, 0.95, 0.9], [1.0, 0.8, 0.6], [1.0, 1.0, 1.0], [0.5, 1.2, 0.7]]))
+            for i, a in enumerate(crd["atoms"]):
+                a[3] = [round(0.02 + 0.045 * (i % 10), 3), round(0.02 + 0.045 * ((i // 10) % 10), 3),
+                        round(0.02 + 0.045 * (i // 100), 3)]
+            spec["small_cell"] = True
     if draw(st.booleans()):
         opts["grid_spacing"] = draw(st.sampled_from([0.2, 0.5, 1.0]))
-    if draw(st.integers(0, 3)) == 0:
+    if draw(st.integers(0, 3)) == 0 and not spec.get("small_cell"):
         # the grid has to fit the box that is in effect (the input structure's box wins)
         dens_edge = [round(target - 0.02, 2)] * 3 if box_kind == "dens" else None
         box = (spec["coords"]["box"] if spec.get("coords") else None) or opts.get("box") or dens_edge or [edge] * 3
